@@ -271,7 +271,8 @@ CHECKS["C13"] = {
     "outside": "histories longer than the bound; more than one distinct chain message; in the Run-loop entry inputs arrive one at a time (the loop's select never has two ready cases); guardian sets larger than 2; panics inside libp2p/badger/zap themselves; the notifier (nil in the harness, as in production without a Discord token)",
     "assumptions": CHECKS["C01"]["assumptions"] + ["clock: time.Now()/time.Since( in cleanup.go, broadcast.go, observation.go redirected mechanically to the harness clock (arbitrary non-decreasing instants); Duration.Minutes()/Hours() comparisons replaced by integer comparisons only after the equivalence was proved on the SSA-executed stdlib code"],
 }
-_c14 = ["m.plen=1;n=%d;kind=%d;stored=%d;reqQueueFull=%d" % (n, k, st, q) for n in (1, 3) for k in (0, 1, 2) for st in (0, 1) for q in (0, 1)]
+_c14 = (["m.plen=1;n=%d;kind=%d;stored=%d;reqQueueFull=%d" % (n, k, st, q) for n in (1, 3) for k in (0, 1, 2) for st in (0, 1) for q in (0, 1)] +
+        ["m.plen=1;n=0;kind=%d;stored=%d" % (k, st) for k in (1, 2) for st in (0, 1)])
 CHECKS["C14"] = {
     "runs": [
         {"pkg": "./pkg/processor", "entry": "VerifC14_Tick", "reach": ["deleted", "kept", "retried"], "opts": _PROC_CLOCK_OPTS,
@@ -280,7 +281,7 @@ CHECKS["C14"] = {
         {"pkg": "./pkg/processor", "entry": "VerifC02_Loopback", "reach": ["end"], "opts": _PROC_CLOCK_OPTS},
     ],
     "bounds": {"quick": {"re-observation": "a second local observation of a pending or published message (n = 1..2) leaves firstObserved, lastRetry, retryCount, settled, submitted unchanged",
-                         "step": "ONE cleanup tick on ONE aggregation entry of any constructible kind {observed on chain, signatures only, injected}; firstObserved, lastRetry (or never retried) and the tick's clock readings arbitrary non-decreasing instants (64-bit monotonic nanoseconds); retryCount any 32-bit value; submitted/settled any; 0, 1 or 3 recorded signatures; guardian set of 1 or 3; a quorum VAA for the message stored or not; re-observation request queue empty or full",
+                         "step": "ONE cleanup tick on ONE aggregation entry of any constructible kind {observed on chain, signatures only, injected}; firstObserved, lastRetry (or never retried) and the tick's clock readings arbitrary non-decreasing instants (64-bit monotonic nanoseconds); retryCount any 32-bit value; submitted/settled any; 0, 1 or 3 recorded signatures; guardian set of 1 or 3, or no set learned yet (injected / signatures-only entries); a quorum VAA for the message stored or not; re-observation request queue empty or full",
                          "unwind": 3000},
                "thorough": {"step": "same, message payload 0..2 bytes"}},
     "outside": "sequences of ticks are covered inductively only through the per-tick obligations (discard-only-with-cause, retry-only-when-due, per-tick progress); several entries per tick (the loop body does not couple entries except through the shared channels, whose capacity is not exhausted by one entry); the Discord notifier (nil); real timers",
@@ -380,13 +381,15 @@ CHECKS["C19"] = {
         {"mod": "explorer-backend", "pkg": "./guardiansets", "entry": "VerifC19_Appends", "reach": ["end"], "opts": {"z3": "z3-new"}},
         {"mod": "explorer-backend", "pkg": "./guardiansets", "entry": "VerifC19_LookupDuringAppend", "reach": ["end", "served"], "opts": {"z3": "z3-new"}},
         {"mod": "explorer-backend", "pkg": "./guardiansets", "entry": "VerifC19_ConcurrentAppends", "reach": ["end"], "opts": {"z3": "z3-new"}},
+        {"mod": "explorer-backend", "pkg": "./guardiansets", "entry": "VerifC19_FetchFuture", "reach": ["end", "served", "refused"], "opts": {"z3": "z3-new", "hookfiles": "guardiansets/gst_data.go:GuardianSets"}},
     ],
     "bounds": {"quick": {"gate": "1..3 known guardian sets of 1..3 keys (set i has index i); VAA naming index 0..3 or 70000, signed by 0..3 keys of any one known set (so: the named set, or ANOTHER set) with symbolic index bytes; body symbolic with one-digit chain ids/sequence; persistence queue (capacity 1) empty or full; then the same VAA again",
                          "appends": "1..3 known sets, then 1..2 appends of a contiguous batch [from..to] with symbolic bounds (to <= 6, from <= first unknown index, any overlap)",
                          "concurrent appends": "1..2 known sets, two updaters delivering batches of 1..2 new sets concurrently, pre-empted before every mutex operation",
+                         "future index": "1..2 known sets, lookup of an index 1..2 ahead: the chain walk (hooked scenario function) returns the range asked for or one set fewer, while the periodic refresh appends 0..3 sets during the call",
                          "lookup during append": "1..2 known sets, append of 1..2 sets, one lookup of index 0..3 forked after EVERY store the append performs to the shared object, and once afterwards"},
                "thorough": {"gate": "3 sets with up to 3 signatures"}},
-    "outside": "more than one concurrent reader or writer; weak-memory reorderings and everything else only the race detector can tell (the interleaving is sequentially consistent, at the granularity of the writer's stores); the chain walk for a future index (the model has no network: it fails, as it does natively with an empty RPC URL); explorer-backend links the node module from the module cache (vaa.VerifySignatures / CalculateQuorum of that copy are what is executed)",
+    "outside": "more than one concurrent reader or writer; weak-memory reorderings and everything else only the race detector can tell (the interleaving is sequentially consistent, at the granularity of the writer's stores); the chain walk itself (getGuardianSetsRange is replaced by a scenario function in the future-index entry; elsewhere the model has no network and the walk fails, as it does natively with an empty RPC URL); explorer-backend links the node module from the module cache (vaa.VerifySignatures / CalculateQuorum of that copy are what is executed)",
     "assumptions": ["ecrecover/keccak model (DESIGN 4)", "dedup cache = harness map behind the gocache interface", "ethclient.Dial fails (no network)",
                     "fmt %d exact rendering for the message id (one-digit operands)"],
 }
@@ -452,7 +455,7 @@ CHECKS["C10"] = {
                     "thorough": ["waitForConfirmations=%d;heads=%d;oneBlock=%d" % (w, h, o) for w in (0, 1) for h in (1, 2) for o in (0, 1)]}},
     ],
     "bounds": {"quick": {"primary path": "the real Watcher.Run service loops; one subscription log at any height < 2^40 with any consistency level; 1..2 head events with any number < 2^41, safe or not; per head the receipt lookup answers nil / ErrNoResult / \"not found\" / another error / a receipt with any status in the same or another block; both confirmation modes",
-                         "re-observation": "one request; head read (any value, or failing) then a receipt (or failure) with any status, any block number and 0..2 logs, each from the core contract or another address, with the message topic or another one, any consistency level"},
+                         "re-observation": "one request; the node's latest block number (eth_blockNumber) at or beyond the head of the configured finality; head read (any value, or failing) then a receipt (or failure) with any status, any block number and 0..2 logs, each from the core contract or another address, with the message topic or another one, any consistency level"},
                "thorough": {}},
     "outside": "the websocket dial, the block poller's timing and go-ethereum's abi log decoding (NewEthereumConnector, NewBlockPollConnector, BlockPollConnector.getBlock/SubscribeForBlocks are replaced through hook prologues in both builds; ParseLogMessagePublished returns the scripted fields); more than one pending message; more than two heads; guardian-set polling",
     "assumptions": ["cooperative goroutines; sync.Mutex with blocking Lock; context model", "math/big.Int model for block numbers (SetUint64/Uint64/Int64)",
